@@ -124,6 +124,9 @@ pub fn f64_lattice() -> Vec<f64> {
 /// in-range integer values for a range: boundaries, mid, walking single bits and all-but-one-bit
 /// patterns of (value - min) for every bit below the width.
 pub fn int_values(min: i64, max: i64) -> Vec<i64> {
+    if max < min {
+        return vec![min];
+    }
     let w = e57spec::bits::width(min, max);
     let range = (max as i128 - min as i128) as u128;
     let mut offs: Vec<u128> = vec![0, range, 1.min(range), range.saturating_sub(1), range / 2];
